@@ -58,17 +58,140 @@ fn dsu_n<const N: usize, const K: usize>() {
     kani::cover!(!same, "two elements not connected");
 }
 
-/// 8 elements, 7 unions: the smallest size at which union-by-rank builds a tree of depth 3
-#[kani::proof]
-#[kani::unwind(10)]
-pub fn c17_dsu_n8_u7() {
-    dsu_n::<8, 7>();
-}
-
+/// 5 elements, any 4 unions, any query (history based; small)
 #[kani::proof]
 #[kani::unwind(8)]
-pub fn c17_dsu_n5_u6() {
-    dsu_n::<5, 6>();
+pub fn c17_dsu_n5_u4() {
+    dsu_n::<5, 4>();
+}
+
+// ---- inductive formulation: one operation from an ARBITRARY valid state ------------------------
+// Representation invariant of union by rank (with or without path compression):
+//   (I1) parents[i] < n
+//   (I2) ranks strictly increase along parent pointers  (=> acyclic, depth <= max rank)
+//   (I3) a node of rank r has at least 2^r nodes in its subtree (=> rank <= log2 n)
+// Every state produced by a history of unions satisfies it; with 8 elements it admits the depth-3
+// tree that 7 unions build, which no bound of "<= 7 elements" can reach.
+
+const NI: usize = 8;
+
+fn true_root(parents: &[usize], x: usize) -> usize {
+    let mut r = x;
+    let mut k = 0;
+    while k < 4 {
+        r = parents[r];
+        k += 1;
+    }
+    r
+}
+
+fn invariant(parents: &[usize], ranks: &[usize]) -> bool {
+    let mut ok = true;
+    let mut size = [0usize; NI];
+    let mut i = 0;
+    while i < NI {
+        if parents[i] >= NI || ranks[i] > 3 {
+            return false;
+        }
+        i += 1;
+    }
+    let mut i = 0;
+    while i < NI {
+        if parents[i] != i && ranks[parents[i]] <= ranks[i] {
+            ok = false;
+        }
+        i += 1;
+    }
+    if !ok {
+        return false;
+    }
+    // subtree sizes: node i counts once for each of its ancestors (depth <= 3 by I2) and itself
+    let mut i = 0;
+    while i < NI {
+        let mut a = i;
+        let mut k = 0;
+        while k < 4 {
+            size[a] += 1;
+            if parents[a] == a {
+                break;
+            }
+            a = parents[a];
+            k += 1;
+        }
+        i += 1;
+    }
+    let mut i = 0;
+    while i < NI {
+        if size[i] < (1usize << ranks[i]) {
+            return false;
+        }
+        i += 1;
+    }
+    true
+}
+
+fn any_state() -> (Vec<usize>, Vec<usize>) {
+    let p: [usize; NI] = kani::any();
+    let r: [usize; NI] = kani::any();
+    kani::assume(invariant(&p, &r));
+    (p.to_vec(), r.to_vec())
+}
+
+/// query step: from any valid state, in_same_set(x,y) <=> x and y have the same true root
+#[kani::proof]
+#[kani::unwind(10)]
+pub fn c17_dsu_query_inductive_n8() {
+    let (p, r) = any_state();
+    let x: usize = kani::any();
+    let y: usize = kani::any();
+    kani::assume(x < NI && y < NI);
+    let same_ref = true_root(&p, x) == true_root(&p, y);
+    let depth3 = p[x] != x && p[p[x]] != p[x] && p[p[p[x]]] != p[p[x]];
+    let mut d = ch::VDsu::from_parts(p.clone(), r);
+    let same = d.in_same_set(x, y);
+    assert!(same == same_ref, "in_same_set_iff_same_component");
+    // path compression keeps the partition
+    let q = d.parents();
+    let mut i = 0;
+    while i < NI {
+        assert!(true_root(q, i) == true_root(&p, i), "path_compression_keeps_every_root");
+        i += 1;
+    }
+    kani::cover!(depth3, "element at depth 3 (needs 8 elements)");
+    kani::cover!(same && x != y, "two distinct connected elements");
+}
+
+/// union step: from any valid state, union(x,y) merges exactly the two components and keeps the invariant
+#[kani::proof]
+#[kani::unwind(10)]
+pub fn c17_dsu_union_inductive_n8() {
+    let (p, r) = any_state();
+    let x: usize = kani::any();
+    let y: usize = kani::any();
+    kani::assume(x < NI && y < NI);
+    let (rx, ry) = (true_root(&p, x), true_root(&p, y));
+    let mut d = ch::VDsu::from_parts(p.clone(), r.clone());
+    d.union(x, y);
+    let q = d.parents().to_vec();
+    let rk = d.ranks().to_vec();
+    // new partition = old partition with the components of x and y merged
+    let mut i = 0;
+    while i < NI {
+        let mut j = 0;
+        while j < NI {
+            let (ri, rj) = (true_root(&p, i), true_root(&p, j));
+            let before = ri == rj;
+            let merged = (ri == rx || ri == ry) && (rj == rx || rj == ry);
+            let after = true_root(&q, i) == true_root(&q, j);
+            assert!(after == (before || merged), "union_merges_exactly_the_two_components");
+            j += 1;
+        }
+        i += 1;
+    }
+    // (two rank-3 roots cannot both exist among 8 elements, so the result always fits rank <= 3)
+    assert!(invariant(&q, &rk), "union_preserves_the_representation_invariant");
+    kani::cover!(rx != ry && r[rx] == r[ry] && r[rx] == 2, "equal-rank union creating a rank-3 root");
+    kani::cover!(rx == ry && x != y, "already connected");
 }
 
 /// Kruskal on weighted clique graphs: the edges marked -1 form a spanning forest that connects
